@@ -272,6 +272,76 @@ def make_run(cfg):
     return run_fn
 
 
+PIPE_K = (4, 16, 64)
+
+
+def pipeline_step(kind, first):
+    """Engine N, synchronous world, multiplex server driven through its real events(): a hostile connection has K complete, valid
+    requests waiting in its socket buffer at the moment a well-behaved connection's single request is waiting too (one poll round
+    reports both).  A stream of requests is input like any other: it must not postpone the other connection's reply for its whole
+    length.  Judged over K = 4, 16, 64: an alarm only when for *every* K the well-behaved request is served after all K hostile
+    ones (so a server that drains a bounded batch per connection is not reported)."""
+    from vf.syncworld import SyncWorld
+    from vf.memnet import raw_client
+    from vf import targets
+    from Pyro5 import protocol, serializers, socketutil
+    ser = serializers.serializers["serpent"]
+    C, _ = base_messages()
+
+    def inv(meth, arg, seq, flags=0):
+        return bytes(protocol.SendingMessage(protocol.MSG_INVOKE, flags, seq, ser.serializer_id, ser.dumpsCall("obj", meth, (arg,), {})).data)
+    served_before = {}
+    violations = []
+    cfg = {"pipeline": kind, "first": first}
+
+    def V(fp, what):
+        violations.append({"fingerprint": "C05|" + fp, "what": "%s [cfg=%s]" % (what, cfg), "replay": {"cfg": cfg}, "choices": []})
+    for K in PIPE_K:
+        w = SyncWorld()
+        try:
+            d = w.daemon()
+            tgt = targets.LogTarget()
+            d.register(tgt, "obj")
+            socks = {}
+            for who in (("hostile", "witness") if first == "hostile" else ("witness", "hostile")):
+                sock = raw_client(w.net, ("h", 1))
+                sock.settimeout(4.0)
+                conn = socketutil.SocketConnection(sock)
+                sock.sendall(C)
+                protocol.recv_stub(conn, [protocol.MSG_CONNECTOK])
+                socks[who] = (sock, conn)
+            w.net.pumping = True         # nothing is served while both connections fill their buffers
+            try:
+                stream = b"".join(inv("hit_oneway", "a%d" % i, 10 + i, protocol.FLAGS_ONEWAY) if kind == "oneway" else inv("token", "a%d" % i, 10 + i) for i in range(K))
+                socks["hostile"][0].sendall(stream)
+                socks["witness"][0].sendall(inv("token", "w", 5))
+            finally:
+                w.net.pumping = False
+            w.net.pump()
+            if w.net.pump_errors:
+                V("request-loop-stopped|pipeline|%s" % type(w.net.pump_errors[0]).__name__, "%r" % (w.net.pump_errors,))
+                break
+            log = list(tgt.log)
+            mine = ("token", "w")
+            hostile_n = len([x for x in log if x != mine])
+            if mine not in log or hostile_n != K:
+                V("pipelined-requests-not-all-served|%s" % kind, "K=%d, invocation log %s" % (K, show(log, 200)))
+                break
+            reply = protocol.recv_stub(socks["witness"][1], [protocol.MSG_RESULT])
+            val = ser.loads(reply.data)
+            if val != "w" or reply.seq != 5:
+                V("wrong-witness-reply|pipeline|%s" % kind, "K=%d: %r seq %d" % (K, val, reply.seq))
+                break
+            served_before[K] = log.index(mine)
+        finally:
+            w.close()
+    if not violations and all(served_before.get(K) == K for K in PIPE_K):
+        V("pipelined-stream-postpones-other-connection|multiplex|%s" % kind,
+          "the well-behaved connection's request was waiting together with K pipelined requests of another connection and was served after "
+          "all K of them, for every K in %r (hostile requests served first: %r)" % (PIPE_K, served_before))
+    return {"outcome": repr((kind, first, tuple(sorted(served_before.items())))), "violations": violations}
+
+
 def task(unit):
     return run_unit(make_run, unit)
 
@@ -343,6 +413,12 @@ def run(ctx):
         if c["p"] == 0 and c["r"] == 0 and c["server"] in ("multiplex", "thread") and c["timeout"] == 0.0 and c["ending"] in ("close", "reset") and c["pool"] != "full":
             cfgs.append(dict(c, logging=True))
     stats = explore_parallel(ctx, task, cfgs, lambda c: c["p"], lambda c: c["r"])
+    pipe_outcomes = []
+    for kind in ("calls", "oneway"):
+        for first in ("hostile", "witness"):
+            r = pipeline_step(kind, first)
+            pipe_outcomes.append(r["outcome"])
+            stats.violations.extend(r["violations"])
     ns = len(attack_streams(ctx.quick))
     cov = coverage_from_stats(
         stats,
@@ -352,13 +428,16 @@ def run(ctx):
              "{multiplex, thread-pool} x COMMTIMEOUT {0, 3} x {roomy pool, pool of one held by the witness}; attacker, witness (three token calls) and a later fresh client "
              "run under all interleavings within the per-config budget on the real requestLoop; oracle: witness tokens exact, fresh client served, loop thread alive, "
              "busy/idle resp. selector map restored; distinct = observation classes" % ns,
-        extra={"configs": len(cfgs), "budgets_p_r": sorted({(c["p"], c["r"]) for c in cfgs}), "bound_completed": "every execution within each configuration's (preemption, reordering) budget was run to completion"})
+        extra={"pipelined_stream_step": {"what": "multiplex server, synchronous world: K in %r complete requests (normal / oneway) of one connection and one request of another waiting in the same poll round, both registration orders; the other connection must not be served after all K for every K" % (PIPE_K,), "executions": 4 * len(PIPE_K), "outcomes": pipe_outcomes}, "configs": len(cfgs), "budgets_p_r": sorted({(c["p"], c["r"]) for c in cfgs}), "bound_completed": "every execution within each configuration's (preemption, reordering) budget was run to completion"})
     return {"violations": stats.violations, "coverage": cov,
             "assumptions": ["hostile input arrives in whole writes per step (byte-level fragmentation is C06/C17's subject)",
                             "a peer that sends a partial message and stays connected legitimately keeps a multiplex server waiting until it disconnects or COMMTIMEOUT fires"]}
 
 
 def replay(ctx, payload):
+    if "pipeline" in payload["replay"]["cfg"]:
+        c = payload["replay"]["cfg"]
+        return pipeline_step(c["pipeline"], c["first"])
     run_fn = make_run(payload["replay"]["cfg"])
     res = run_fn(Chooser([tuple(c) for c in payload["choices"]]))
     return {"outcome": res["outcome"], "violations": res["violations"]}
